@@ -447,7 +447,13 @@ func (g GenParameter) ToString() string {
 type GenParameters []GenParameter
 
 func (g GenParameters) Len() int           { return len(g) }
-func (g GenParameters) Less(i, j int) bool { return g[i].Name < g[j].Name }
+func (g GenParameters) Less(i, j int) bool {
+	if g[i].Name != g[j].Name {
+		return g[i].Name < g[j].Name
+	}
+	// the same name may be used at several locations: keep the order stable
+	return g[i].Location < g[j].Location
+}
 func (g GenParameters) Swap(i, j int)      { g[i], g[j] = g[j], g[i] }
 
 // HasSomeDefaults returns true is at least one parameter has a default value set
